@@ -105,6 +105,7 @@ pub fn dispatch(ty: &str, input: Vec<u8>, light: bool) -> J {
         "header" => codec_type!(csl::Header, input, light),
         "operational_cert" => codec_type!(csl::OperationalCert, input, light),
         "pool_params" => codec_type!(csl::PoolParams, input, light),
+        "address" => codec_type!(csl::Address, input, light, nojson),
         "versioned_block" => codec_type!(csl::VersionedBlock, input, light),
         "vkeywitnesses" => codec_type!(csl::Vkeywitnesses, input, light),
         "bootstrap_witnesses" => codec_type!(csl::BootstrapWitnesses, input, light),
